@@ -15,9 +15,13 @@ class Val:
 class TopV(Val):
     kind = "top"
 
+    log = []      # every unknown value created (reasons), read by the engine's completeness guard
+
     def __init__(self, why="", sym=None):
         self.why = why
         self.sym = sym or ("top", why)
+        if len(TopV.log) < 10000:
+            TopV.log.append(why)
 
     def __repr__(self):
         return "TOP({})".format(self.why)
@@ -249,6 +253,15 @@ class ClassV(Val):
 
     def __repr__(self):
         return "Class({})".format(self.name)
+
+
+class GroupDictV(Val):
+    """match.groupdict(): the named groups of one match, read like match.group(name)."""
+    kind = "groupdict"
+
+    def __init__(self, match):
+        self.match = match
+        self.sym = ("groupdict", getattr(match, "sym", None))
 
 
 class ExtV(Val):
